@@ -19,6 +19,7 @@ CONSTANTS Names,      \* layer names
           FileTok,    \* plain files a buildpack puts into a layer
           EnvTok,     \* non-empty layer environments ("none" = empty env)
           ExecTok,    \* exec.d program names
+          MissingExec, \* the ones among them whose source file does not exist (struct API: write_exec_d fails)
           SbomTok,    \* SBOM payloads ("none" = no file)
           Formats,    \* SBOM formats
           MdVals,     \* payload tokens of metadata values
@@ -206,7 +207,7 @@ WriteSboms(n, s) ==
 WriteExecD(n, x) ==
   /\ n \in refs
   /\ LET arg == [NoArg EXCEPT !.execd = x] IN
-     IF L[n].dir
+     IF L[n].dir /\ x \cap MissingExec = {}
      THEN Finish(n, [L[n] EXCEPT !.execd = x], FALSE, WObs("write_exec_d", n, arg, RetUnit))
      ELSE Finish(n, L[n], FALSE, WObs("write_exec_d", n, arg, RetErrLayer))
 
